@@ -248,7 +248,7 @@ func AtomPackage(prefix string, a OutsideAtom) *Package {
 	name := prefix + a.ID
 	fmt.Fprintf(&b, "package %s\n\nimport (\n\t\"sync\"\n\n\t\"github.com/goose-lang/goose/machine\"\n)\n\n", name)
 	var cases []string
-	args := []uint64{0, 3, 8}
+	args := []uint64{0, 3, 8, 255, 4294967296, 18446744073709551615}
 	if a.Kind == "decl" {
 		b.WriteString("func keepSync() *sync.Mutex {\n\treturn new(sync.Mutex)\n}\n\nfunc keepMachine(b []byte) uint64 {\n\treturn machine.UInt64Get(b)\n}\n\n" + a.Code + "\n\n")
 		for i, v := range args {
